@@ -261,6 +261,7 @@ func (in *Interp) resetPath(prefix []int64) {
 	in.signs = nil
 	in.verifies = nil
 	in.nverify = 0
+	in.nufapp = 0
 	in.seals = nil
 	in.opens = nil
 	in.unwindOverride = 0
